@@ -44,6 +44,7 @@ def main():
         errs = sorted(c for c, r in res.items() if r["exit"] == 2)
         verdict = {0: "missed", 1: "VIOLATION", 2: "fail-closed (exit 2)"}[tgt["exit"]]
         rows.append((os.path.basename(d), prop, verdict, "/".join(tgt["rules"]), ", ".join(others) + (" | exit2: " + ",".join(errs) if errs else "")))
+        meta["current"] = verdict + (" " + "/".join(tgt["rules"]) if tgt["rules"] else "")
         if update:
             meta["checks"] = {c: {"exit": r["exit"], "rules": r["rules"], "first_report": r["first"]} for c, r in res.items() if r["exit"] != 0}
             meta["detected_by_target_check"] = tgt["exit"] == 1
